@@ -119,3 +119,20 @@ pub fn note_text(v: &Value) -> Value {
     let log = note_from(&v["note"], v["base"].as_str().unwrap());
     json!({"text": log.serialize_to_string().unwrap()})
 }
+
+/// K4: {repo, file, start, end}: the porcelain reader on whatever the configured git prints for `blame`
+pub fn porcelain(v: &Value) -> Value {
+    let repo = git_ai::git::find_repository_in_path(v["repo"].as_str().unwrap()).expect("repo");
+    let options = GitAiBlameOptions::default();
+    let ranges = vec![(v["start"].as_u64().unwrap() as u32, v["end"].as_u64().unwrap() as u32)];
+    match repo.blame_hunks_for_ranges(v["file"].as_str().unwrap(), &ranges, &options) {
+        Ok(hunks) => {
+            let out: Vec<Value> = hunks
+                .iter()
+                .map(|h| json!({"range": [h.range.0, h.range.1], "orig": [h.orig_range.0, h.orig_range.1], "sha": h.commit_sha}))
+                .collect();
+            json!({"ok": true, "hunks": out})
+        }
+        Err(e) => json!({"ok": false, "error": e.to_string()}),
+    }
+}
